@@ -559,7 +559,11 @@ class FunctionType(Type):
             >>> FunctionType([Qubit], [Bool]).flip()
             FunctionType([Bool], [Qubit])
         """
-        return FunctionType(input=list(self.output), output=list(self.input))
+        return FunctionType(
+            input=list(self.output),
+            output=list(self.input),
+            runtime_reqs=self.runtime_reqs,
+        )
 
     def __repr__(self) -> str:
         return f"FunctionType({self.input}, {self.output})"
